@@ -23,6 +23,18 @@ CLAIMS = {
          "Trusted: as C02; body classes are computed by the harness from the bytes (JSON shape only).", "DESIGN.md section 5 C05"),
  "C19": ("Same Dispatch specification, statistics clauses: the in-flight gauge is sampled by the backend while it holds each attempt (must equal the number of attempts in flight) and at quiescence gauges must be zero and per-endpoint counters must record every attempt exactly once, as a success iff the client received a complete response with a success status; total = ok + fail at endpoint and global scope.",
          "Trusted: as C02. Model and translator scopes are not compared in this revision; panics inside an attempt are not injected.", "DESIGN.md section 5 C19"),
+ "C01": ("Forward.tla states what a backend must receive for a forwarded request (method, path without route prefix, raw query, body byte for byte; for the translated route the same nonce and model) on every attempt; TLC enumerates request shapes (8 body classes incl. the 1 MiB inspection boundary x declared/chunked length x 3 routes x queries); each goes through both engines of the assembled server sequentially (every third request with a connection reset on its first attempt) and then in waves of 48 concurrent requests with distinct bodies; the backend's view is validated against the sender's.",
+         "Trusted: TLC, harness (sha256/nonce projection). Cross-request interference is exercised by stress (40 waves quick, 200 thorough), not by a deterministic schedule.", "DESIGN.md section 5 C01"),
+ "C09": ("Routing.tla is the strategy x fallback decision table with the handler's obligations (who may be contacted, 404 vs 503, routing headers agree with what was done); TLC enumerates strategy x fallback x refresh x healthy set x listing set x endpoints that dropped the model in a later listing x unified/plain registry x proxy/provider route x chunked body; each row boots the assembled server with that strategy, shapes health and listings through real health checks / re-discovery, sends one request and validates contact, status and headers.",
+         "Trusted: TLC, harness. Spelling variants of model names are not enumerated. Two open findings (KF-C09-1, KF-C09-5) are suppressed only through their named deviation actions.", "DESIGN.md section 5 C09"),
+ "C11": ("Provider.tla: a provider-prefixed request may only be served by a healthy endpoint whose type the prefix allows (auto counts as any), otherwise an error and no contact; listings under the prefix only contain models of such endpoints. TLC enumerates prefix (12 shipped) x endpoint-type mix x healthy subset; allowed types are read from config/profiles/*.yaml at run time; full stack with typed scripted backends.",
+         "Trusted: TLC, harness incl. its YAML reading of routing.prefixes / api.openai_compatible. Only shipped profiles are enumerated.", "DESIGN.md section 5 C11"),
+ "C14": ("Passthrough.tla: mode = passthrough iff passthrough is enabled and a healthy candidate's profile declares native Anthropic support; in passthrough every contacted endpoint is native, receives /v1/messages and the client's bytes; otherwise /v1/chat/completions and an OpenAI translation; X-Olla-Mode tells which. TLC enumerates passthrough on/off x stream x type mix x healthy subset x per-endpoint fault; full stack.",
+         "Trusted: TLC, harness incl. its YAML reading of api.anthropic_support.enabled and the body-kind classifier.", "DESIGN.md section 5 C14"),
+ "C15": ("Headers.tla: upstream header blocks (one per attempt) vs the client's block: no credential or hop-by-hop name (any case, any multiplicity), every other header with the identical ordered value list, client values of Via/X-Forwarded-*/X-Real-IP kept in order with olla's additions after them. TLC enumerates header shapes (case variants, one/two lines, empty values, all 21 names at once, triples) x engine x path (first attempt, failover after reset/refusal, Anthropic passthrough, translated) x random padding headers; full stack with a raw client and raw-recording backends.",
+         "Trusted: TLC, harness (line tokenisation). Headers Go's transport owns (Host, Content-Length, Transfer-Encoding, User-Agent, Accept-Encoding) and olla's own X-Proxied-By/X-Model are outside 'other'.", "DESIGN.md section 5 C15"),
+ "C16": ("UrlPath.tla: request targets as segment sequences (plain, empty, dot and percent-encoded dot spellings, %2f, ;params, double encoding) in origin/absolute/network-path form x base path x preserve_path x query; a forwarded request must hit the configured listener, keep the raw query, stay under the base path with preserve_path, equal base+rest for clean targets; relative health/model URLs resolve under the base. TLC enumerates all sequences to length 3 (quick) / 4-5 (thorough); full stack with a decoy listener.",
+         "Trusted: TLC, harness. One open finding (KF-C16-1, percent-encoded traversal with preserve_path) is suppressed only through its named deviation; the repository's own test asserts that behaviour so it is not repaired.", "DESIGN.md section 5 C16"),
 }
 NA_REASON = "check not built yet in this revision (planned, see DESIGN.md section 5)"
 def main():
